@@ -89,8 +89,17 @@ class Bench:
             for kk, n in enumerate(sizes):
                 self.serial += 1
                 name = 'src#%d' % self.serial
+                section = n < 0         # a negative size: the append is made inside an appendLock() ... appendUnlock() section of the caller (as the trace sink does)
+                n = abs(n)
                 self.it.mem[name] = [(pid, kk, i) for i in range(n)]
-                self.call('append', [P(name, 0), n])
+                if section:
+                    self.call('appendLock', [])
+                    self.k.reschedule('in-section')
+                    self.call('appendLockless', [P(name, 0), n])
+                    self.k.reschedule('in-section')         # the caller may do more before it leaves the section
+                    self.call('appendUnlock', [])
+                else:
+                    self.call('append', [P(name, 0), n])
                 self.appended.append((pid, kk, n))
         return body
 
@@ -137,6 +146,7 @@ def run_once(prog, cfg, producers, schedule):
 
 def judge(b, producers):
     out = [c for blk, tid in b.blocks for c in blk]
+    producers = [[abs(n) for n in sizes] for sizes in producers]
     want = sum(n for sizes in producers for n in sizes)
     bad = [c for c in out if not (isinstance(c, tuple) and len(c) == 3)]
     if bad:
@@ -173,13 +183,15 @@ CASES = [
     ({'buff_size': 2, 'buff_min_num': 1, 'buff_max_num': 1, 'interval': 1}, [[5], [1, 1]]),
     ({'buff_size': 3, 'buff_min_num': 2, 'buff_max_num': 3, 'interval': 1}, [[2, 2], [4]]),
     ({'buff_size': 8, 'buff_min_num': 1, 'buff_max_num': 1, 'interval': 1}, [[1], [2], [3]]),
+    ({'buff_size': 8, 'buff_min_num': 1, 'buff_max_num': 2, 'interval': 1}, [[-3], [2]]),
+    ({'buff_size': 4, 'buff_min_num': 1, 'buff_max_num': 1, 'interval': 1}, [[-2, -3]]),
 ]
 
 
 def r11(ctx, prog):
     full = ctx.tier == 'thorough'
     ctx.rule('C10.R11', 'A10 the pipe over interleavings: %d configurations (buffer sizes 2..8, one to three buffers, one to three producers appending runs of 1..6 marked bytes, some '
-             'longer than a buffer) are interpreted on the syntax trees of AsyncPipe::Impl and its Buffer with the background thread and the producers as model threads, the four '
+             'longer than a buffer, some inside an appendLock() / appendUnlock() section) are interpreted on the syntax trees of AsyncPipe::Impl and its Buffer with the background thread and the producers as model threads, the four '
              'mutexes, try_lock, both condition variables (the time-out of wait_for is a choice of the schedule), join modelled, and every schedule with at most %d preemption(s) '
              'or time-outs enumerated: what the sink was handed when cleanup() returns is every appended byte exactly once, each append contiguous, each producer in its own order; '
              'sink calls do not overlap and run on the background thread; no write past a buffer; no schedule ends with nobody able to go on (a producer stuck in append(), a '
